@@ -16,7 +16,9 @@
 (*        props    : << <<own property names in textual order>>, ... >>                           *)
 (*        invs     : << <<own invariant descriptions in textual (top-down) order>>, ... >>       *)
 (*        methods  : << <<own method names in textual order, without __init__>>, ... >>         *)
-(*        wmt      : <<"none" | "true" | "false", ...>>   declared @serialization(with_model_type)*)
+(*        wmt      : <<"none" | "true" | "false" | "bare", ...>>   declared @serialization(...):    *)
+(*                   with_model_type=True / False, "bare" = the decorator without the argument      *)
+(*                   (a serialization setting that says nothing about the model type)               *)
 (*        ctor     : << <<statements of the written __init__>>, ... >>; a statement is              *)
 (*                   [t |-> "super", b |-> id of the base, p |-> ""] or                            *)
 (*                   [t |-> "assign", b |-> 0, p |-> property name]                                *)
